@@ -1,4 +1,4 @@
-INIT MCInitQuick
+INIT ObsInitRoster
 NEXT Next
 CONSTANTS Configs = {}
   CountBasedCheck = FALSE
@@ -7,7 +7,7 @@ CONSTANTS Configs = {}
   LoadOnlyOwnTargets = FALSE
   MatchWholeSecond = FALSE
   DedupIgnoresSensor = FALSE
-  FreezeRoster = FALSE
+  FreezeRoster = TRUE
   StampCachedEpoch = FALSE
   CrashOnDuplicate = FALSE
   KeepDuplicates = FALSE
